@@ -21,7 +21,9 @@ RULE = ('Hypothesis-generated call histories (5..14 operations) against ONE cach
         'returned array equals, bit for bit, the array of single-pair bilform(trial_j, test_i) / single-element linform '
         'values; at most one file per distinct (curve, lists) key; after damage the next call returns the exact array and '
         'leaves a loadable file; plus the complete enumeration {matrix file, vector file} x six damage classes x {serial, '
-        'pool} for the call after the damage. Non-trivial = history with a cache hit after damage, or a pool call with >= 2 workers and '
+        'pool} for the call after the damage, and faults injected in the middle of a computation (the datum of the 36th of 48 '
+        'elements / the curve of the last trial column raises), after which a fresh operator on the same directory must '
+        'return the exact array. Non-trivial = history with a cache hit after damage, or a pool call with >= 2 workers and '
         'N*M >= 100; distinct by history.')
 ASSUMPTIONS = ['the operating system\'s scheduling of the pool workers is not controlled; worker count, chunk size (through '
                'the code\'s own formula) and call history are', 'single-pair bilform / single-element linform is the '
@@ -67,6 +69,11 @@ class World:
             }
         self.single = {}
         self.m0_single = {}
+        big = Live({'kind': 'param', 'curve': 'UnitSquare', 'ts': [0.0, 1.0], 'xs': None})
+        apply_op(big, ['unif'])
+        apply_op(big, ['unif'])
+        self.lives['UnitSquareBig'] = big
+        self.lists['UnitSquareBig'] = {'big': big.leaves()[:48]}
         # UnitSquare and LShape (unit pieces) coincide in parameter space on [0, 4] but not in the plane: their
         # x <= 4 lists have identical reprs, so only the curve name separates their cache keys
         self.twin_ok = str(self.lists['UnitSquare']['x_le_4']) == str(self.lists['LShape']['x_le_4']) and \
@@ -217,6 +224,83 @@ def body(case, rec):
                                   {'op_index': n_op, 'op': op, 'entries_different': bad, 'shape': list(mat.shape),
                                    'max_abs_diff': float(np.max(np.abs(mat - want))) if mat.shape == want.shape else None}, case)
                     return
+            elif kind in ('m0_fault', 'sl_fault'):
+                # a fault (exception) in the middle of a computation against the cache directory: whatever it leaves
+                # behind must not be served as a result later
+                class Fault(Exception):
+                    pass
+                if kind == 'm0_fault':
+                    name = 'UnitSquareBig'
+                    lst = W.lists[name]['big']
+                    count = {'n': 0}
+                    if 'm0_calls' not in W.__dict__:
+                        # number of calls of the datum for the whole list (measured once, without a cache)
+                        cnt = {'n': 0}
+
+                        def u0_count(xy):
+                            cnt['n'] += 1
+                            return 1
+                        with repo.quiet():
+                            Mc = InitialOperator(bdr_mesh=W.lives[name].mesh, u0=u0_count, initial_mesh=UnitSquareBoundaryRefined)
+                            vals = Mc.linform_vector(elems=lst, use_mp=False)
+                        for e, v in zip(lst, vals):
+                            W.m0_single[id(e)] = v
+                        W.m0_calls = cnt['n']
+                    limit = int(W.m0_calls * op['after'] / 48.0)
+
+                    def u0_faulty(xy):
+                        count['n'] += 1
+                        if count['n'] > limit:
+                            raise Fault()
+                        return 1
+                    with repo.quiet():
+                        Mf = InitialOperator(bdr_mesh=W.lives[name].mesh, u0=u0_faulty, initial_mesh=UnitSquareBoundaryRefined,
+                                             cache_dir=cdir)
+                        try:
+                            Mf.linform_vector(elems=lst, use_mp=False)
+                        except Fault:
+                            rec.cls('fault_injected_m0')
+                        M0n = InitialOperator(bdr_mesh=W.lives[name].mesh, u0=lambda xy: 1, initial_mesh=UnitSquareBoundaryRefined,
+                                              cache_dir=cdir)
+                        vec = np.asarray(M0n.linform_vector(elems=lst, use_mp=False), dtype=float)
+                        for e in lst:
+                            if id(e) not in W.m0_single:
+                                W.m0_single[id(e)] = M0n.linform(e)[0]
+                    want = np.array([W.m0_single[id(e)] for e in lst], dtype=float)
+                    keys.add(('M0', 'big'))
+                    if vec.shape != want.shape or not np.array_equal(vec, want):
+                        rec.violation('C17/vector/after_fault/mismatch', {'op_index': n_op, 'op': op,
+                                                                        'entries_different': int(np.sum(vec != want)) if vec.shape == want.shape else -1}, case)
+                        return
+                else:
+                    name = 'UnitSquare'
+                    test = W.lists[name]['all']
+                    from src.hierarchical_error_estimator import DummyElement
+                    base = W.lists[name]['rows']
+                    count = {'n': 0}
+
+                    def faulty_gamma(g0):
+                        def gm(x):
+                            count['n'] += 1
+                            if count['n'] > op['after']:
+                                raise Fault()
+                            return g0(x)
+                        return gm
+                    trial_f = [DummyElement(e.vertices, faulty_gamma(e.gamma_space)) if j == len(base) - 1 else e for j, e in enumerate(base)]
+                    S = SL(name)
+                    with repo.quiet():
+                        try:
+                            S.bilform_matrix(test, trial_f, use_mp=False)
+                        except Fault:
+                            rec.cls('fault_injected_sl')
+                        trial_ok = [DummyElement(e.vertices, e.gamma_space) if j == len(base) - 1 else e for j, e in enumerate(base)]
+                        mat = np.asarray(S.bilform_matrix(test, trial_ok, use_mp=False))
+                    want = np.array([[W.pair_value(S, name, te, tr) for tr in base] for te in test], dtype=float)
+                    keys.add((name, 'all', 'rows_dummy'))
+                    if mat.shape != want.shape or not np.array_equal(mat, want):
+                        rec.violation('C17/matrix/after_fault/mismatch', {'op_index': n_op, 'op': op}, case)
+                        return
+                continue
             elif kind == 'm0':
                 name = 'UnitSquare'
                 lst = W.lists[name][op['lst']]
@@ -288,6 +372,10 @@ def crash_point_cases():
             M2 = dict(M, mp=mp_after, workers=2)
             D = {'op': 'damage', 'which': -1, 'how': how}
             out.append({'ops': [A, M, D, A2, M2, {'op': 'fresh'}, A, M]})
+    # faults in the middle of a computation (the quadrature of element 35 of 48 / of the last trial column raises)
+    out.append({'ops': [{'op': 'm0_fault', 'after': 35}, {'op': 'fresh'}]})
+    out.append({'ops': [{'op': 'm0_fault', 'after': 40.5}, {'op': 'fresh'}]})
+    out.append({'ops': [{'op': 'sl_fault', 'after': 2}, {'op': 'fresh'}, {'op': 'sl_fault', 'after': 1}]})
     return out
 
 
